@@ -99,10 +99,25 @@ package vm
 //@   witness readonly: interpreter.readOnly
 //@ end
 
-//@ func vm.opReferenceIndexValueStorageJournal
+//@ func vm.opReferenceIndexValueStorageJournal(ctx, pc, interpreter, scope) (ret, err)
 //@   verify
 //@   safety [C03]
 //@   requires protocol: opProtocol(interpreter, scope) && len(scope.Stack.data) >= 6
+//@   ghost o0 u256 = top(scope, 0)
+//@   ghost o1 u256 = top(scope, 1)
+//@   ghost o2 u256 = top(scope, 2)
+//@   ghost o3 u256 = top(scope, 3)
+//@   ghost o4 u256 = top(scope, 4)
+//@   ghost o5 u256 = top(scope, 5)
+//@   ghost n u64 = 0
+//@   ghost saverr error = nil
+//@   let selfaddr = uf("iface:vm.ContractRef.Address#0", "bv160", scope.Contract.self)
+//@   oncall (*vm.Tracer).SaveStateKey : n = n + 1 ; saverr = $r
+//@   assertcall (*vm.Tracer).SaveStateKey operands-in-declared-order [C10 C12]: n == 0 && $1 == selfaddr && $2 != nil && *$2 == o0 && $3 != nil && *$3 == o1 && $4 != nil && *$4 == o3 && $5 == be32(o4) && $6 == be32(o5)
+//@   ensures at-most-one-registration [C12]: n <= 1 && (n == 1 ==> err == saverr) && (n == 0 ==> err != nil && err != errStopToken && err != ErrExecutionReverted)
+//@   ensures no-return-data [C12]: ret == nil
+//@   ensures pops-6 [C12]: len(scope.Stack.data) == old(len(scope.Stack.data)) - 6
+//@   modifies vm.Stack.data, map:map[common.Address]map[uint256.Int]map[uint8]map[common.Hash]*vm.StorageKey, map:map[uint256.Int]map[uint8]map[common.Hash]*vm.StorageKey, map:map[uint8]map[common.Hash]*vm.StorageKey, map:map[common.Hash]*vm.StorageKey, map:map[string]*vm.StorageKey, map:map[uint256.Int]map[uint8]*vm.StorageKey, map:map[uint8]*vm.StorageKey, map:map[common.Address]*vm.StorageKey
 //@   witness s0: top(scope, 0)
 //@   witness s1: top(scope, 1)
 //@   witness s2: top(scope, 2)
@@ -113,11 +128,26 @@ package vm
 //@   witness readonly: interpreter.readOnly
 //@ end
 
-//@ func vm.opValueIndexValueStorageJournal
+//@ func vm.opValueIndexValueStorageJournal(ctx, pc, interpreter, scope) (ret, err)
 //@   verify
 //@   safety [C03]
 //@   requires protocol: opProtocol(interpreter, scope) && len(scope.Stack.data) >= 6
+//@   ghost o0 u256 = top(scope, 0)
+//@   ghost o1 u256 = top(scope, 1)
+//@   ghost o2 u256 = top(scope, 2)
+//@   ghost o3 u256 = top(scope, 3)
+//@   ghost o4 u256 = top(scope, 4)
+//@   ghost o5 u256 = top(scope, 5)
+//@   ghost n u64 = 0
+//@   ghost saverr error = nil
+//@   let selfaddr = uf("iface:vm.ContractRef.Address#0", "bv160", scope.Contract.self)
+//@   oncall (*vm.Tracer).SaveStateKey : n = n + 1 ; saverr = $r
+//@   assertcall (*vm.Tracer).SaveStateKey operands-in-declared-order [C10 C12]: n == 0 && $1 == selfaddr && $2 != nil && *$2 == o0 && $3 != nil && *$3 == o1 && $4 != nil && *$4 == o3 && $5 == be32(o4) && $6 == be32(o5) && len($7) == 32 && word($7, 0) == o2
+//@   ensures at-most-one-registration [C12]: n <= 1 && (n == 1 ==> err == saverr) && (n == 0 ==> err != nil && err != errStopToken && err != ErrExecutionReverted)
+//@   ensures no-return-data [C12]: ret == nil
+//@   ensures pops-6 [C12]: len(scope.Stack.data) == old(len(scope.Stack.data)) - 6
 //@   ensures work-bounded [C20]: work <= old(work) + 4096
+//@   modifies vm.Stack.data, map:map[common.Address]map[uint256.Int]map[uint8]map[common.Hash]*vm.StorageKey, map:map[uint256.Int]map[uint8]map[common.Hash]*vm.StorageKey, map:map[uint8]map[common.Hash]*vm.StorageKey, map:map[common.Hash]*vm.StorageKey, map:map[string]*vm.StorageKey, map:map[uint256.Int]map[uint8]*vm.StorageKey, map:map[uint8]*vm.StorageKey, map:map[common.Address]*vm.StorageKey
 //@   witness s0: top(scope, 0)
 //@   witness s1: top(scope, 1)
 //@   witness s2: top(scope, 2)
@@ -128,10 +158,24 @@ package vm
 //@   witness readonly: interpreter.readOnly
 //@ end
 
-//@ func vm.opReferenceIndexReferenceStorageJournal
+//@ func vm.opReferenceIndexReferenceStorageJournal(ctx, pc, interpreter, scope) (ret, err)
 //@   verify
 //@   safety [C03]
 //@   requires protocol: opProtocol(interpreter, scope) && len(scope.Stack.data) >= 5
+//@   ghost o0 u256 = top(scope, 0)
+//@   ghost o1 u256 = top(scope, 1)
+//@   ghost o2 u256 = top(scope, 2)
+//@   ghost o3 u256 = top(scope, 3)
+//@   ghost o4 u256 = top(scope, 4)
+//@   ghost n u64 = 0
+//@   ghost saverr error = nil
+//@   let selfaddr = uf("iface:vm.ContractRef.Address#0", "bv160", scope.Contract.self)
+//@   oncall (*vm.Tracer).SaveStateKey : n = n + 1 ; saverr = $r
+//@   assertcall (*vm.Tracer).SaveStateKey operands-in-declared-order [C10 C12]: n == 0 && $1 == selfaddr && $2 != nil && *$2 == o0 && $3 != nil && *$3 == o1 && $4 == nil && $5 == be32(o3) && $6 == be32(o4)
+//@   ensures at-most-one-registration [C12]: n <= 1 && (n == 1 ==> err == saverr) && (n == 0 ==> err != nil && err != errStopToken && err != ErrExecutionReverted)
+//@   ensures no-return-data [C12]: ret == nil
+//@   ensures pops-5 [C12]: len(scope.Stack.data) == old(len(scope.Stack.data)) - 5
+//@   modifies vm.Stack.data, map:map[common.Address]map[uint256.Int]map[uint8]map[common.Hash]*vm.StorageKey, map:map[uint256.Int]map[uint8]map[common.Hash]*vm.StorageKey, map:map[uint8]map[common.Hash]*vm.StorageKey, map:map[common.Hash]*vm.StorageKey, map:map[string]*vm.StorageKey, map:map[uint256.Int]map[uint8]*vm.StorageKey, map:map[uint8]*vm.StorageKey, map:map[common.Address]*vm.StorageKey
 //@   witness s0: top(scope, 0)
 //@   witness s1: top(scope, 1)
 //@   witness s2: top(scope, 2)
@@ -141,11 +185,25 @@ package vm
 //@   witness readonly: interpreter.readOnly
 //@ end
 
-//@ func vm.opValueIndexReferenceStorageJournal
+//@ func vm.opValueIndexReferenceStorageJournal(ctx, pc, interpreter, scope) (ret, err)
 //@   verify
 //@   safety [C03]
 //@   requires protocol: opProtocol(interpreter, scope) && len(scope.Stack.data) >= 5
+//@   ghost o0 u256 = top(scope, 0)
+//@   ghost o1 u256 = top(scope, 1)
+//@   ghost o2 u256 = top(scope, 2)
+//@   ghost o3 u256 = top(scope, 3)
+//@   ghost o4 u256 = top(scope, 4)
+//@   ghost n u64 = 0
+//@   ghost saverr error = nil
+//@   let selfaddr = uf("iface:vm.ContractRef.Address#0", "bv160", scope.Contract.self)
+//@   oncall (*vm.Tracer).SaveStateKey : n = n + 1 ; saverr = $r
+//@   assertcall (*vm.Tracer).SaveStateKey operands-in-declared-order [C10 C12]: n == 0 && $1 == selfaddr && $2 != nil && *$2 == o0 && $3 != nil && *$3 == o1 && $4 == nil && $5 == be32(o3) && $6 == be32(o4) && len($7) == 32 && word($7, 0) == o2
+//@   ensures at-most-one-registration [C12]: n <= 1 && (n == 1 ==> err == saverr) && (n == 0 ==> err != nil && err != errStopToken && err != ErrExecutionReverted)
+//@   ensures no-return-data [C12]: ret == nil
+//@   ensures pops-5 [C12]: len(scope.Stack.data) == old(len(scope.Stack.data)) - 5
 //@   ensures work-bounded [C20]: work <= old(work) + 4096
+//@   modifies vm.Stack.data, map:map[common.Address]map[uint256.Int]map[uint8]map[common.Hash]*vm.StorageKey, map:map[uint256.Int]map[uint8]map[common.Hash]*vm.StorageKey, map:map[uint8]map[common.Hash]*vm.StorageKey, map:map[common.Hash]*vm.StorageKey, map:map[string]*vm.StorageKey, map:map[uint256.Int]map[uint8]*vm.StorageKey, map:map[uint8]*vm.StorageKey, map:map[common.Address]*vm.StorageKey
 //@   witness s0: top(scope, 0)
 //@   witness s1: top(scope, 1)
 //@   witness s2: top(scope, 2)
@@ -155,10 +213,22 @@ package vm
 //@   witness readonly: interpreter.readOnly
 //@ end
 
-//@ func vm.opReferenceStateVarJournal
+//@ func vm.opReferenceStateVarJournal(ctx, pc, interpreter, scope) (ret, err)
 //@   verify
 //@   safety [C03]
 //@   requires protocol: opProtocol(interpreter, scope) && len(scope.Stack.data) >= 3
+//@   ghost o0 u256 = top(scope, 0)
+//@   ghost o1 u256 = top(scope, 1)
+//@   ghost o2 u256 = top(scope, 2)
+//@   ghost n u64 = 0
+//@   ghost saverr error = nil
+//@   let selfaddr = uf("iface:vm.ContractRef.Address#0", "bv160", scope.Contract.self)
+//@   oncall (*vm.Tracer).SaveStateKey : n = n + 1 ; saverr = $r
+//@   assertcall (*vm.Tracer).SaveStateKey operands-in-declared-order [C10 C12]: n == 0 && $1 == selfaddr && $2 == nil && $3 != nil && *$3 == o1 && $4 == nil && $5 == be32(o2) && be32($6) == 0
+//@   ensures at-most-one-registration [C12]: n <= 1 && (n == 1 ==> err == saverr) && (n == 0 ==> err != nil && err != errStopToken && err != ErrExecutionReverted)
+//@   ensures no-return-data [C12]: ret == nil
+//@   ensures pops-3 [C12]: len(scope.Stack.data) == old(len(scope.Stack.data)) - 3
+//@   modifies vm.Stack.data, map:map[common.Address]map[uint256.Int]map[uint8]map[common.Hash]*vm.StorageKey, map:map[uint256.Int]map[uint8]map[common.Hash]*vm.StorageKey, map:map[uint8]map[common.Hash]*vm.StorageKey, map:map[common.Hash]*vm.StorageKey, map:map[string]*vm.StorageKey, map:map[uint256.Int]map[uint8]*vm.StorageKey, map:map[uint8]*vm.StorageKey, map:map[common.Address]*vm.StorageKey
 //@   witness s0: top(scope, 0)
 //@   witness s1: top(scope, 1)
 //@   witness s2: top(scope, 2)
@@ -166,10 +236,23 @@ package vm
 //@   witness readonly: interpreter.readOnly
 //@ end
 
-//@ func vm.opValueStateVarJournal
+//@ func vm.opValueStateVarJournal(ctx, pc, interpreter, scope) (ret, err)
 //@   verify
 //@   safety [C03]
 //@   requires protocol: opProtocol(interpreter, scope) && len(scope.Stack.data) >= 4
+//@   ghost o0 u256 = top(scope, 0)
+//@   ghost o1 u256 = top(scope, 1)
+//@   ghost o2 u256 = top(scope, 2)
+//@   ghost o3 u256 = top(scope, 3)
+//@   ghost n u64 = 0
+//@   ghost saverr error = nil
+//@   let selfaddr = uf("iface:vm.ContractRef.Address#0", "bv160", scope.Contract.self)
+//@   oncall (*vm.Tracer).SaveStateKey : n = n + 1 ; saverr = $r
+//@   assertcall (*vm.Tracer).SaveStateKey operands-in-declared-order [C10 C12]: n == 0 && $1 == selfaddr && $2 == nil && $3 != nil && *$3 == o1 && $4 != nil && *$4 == o2 && $5 == be32(o3) && be32($6) == 0
+//@   ensures at-most-one-registration [C12]: n <= 1 && (n == 1 ==> err == saverr) && (n == 0 ==> err != nil && err != errStopToken && err != ErrExecutionReverted)
+//@   ensures no-return-data [C12]: ret == nil
+//@   ensures pops-4 [C12]: len(scope.Stack.data) == old(len(scope.Stack.data)) - 4
+//@   modifies vm.Stack.data, map:map[common.Address]map[uint256.Int]map[uint8]map[common.Hash]*vm.StorageKey, map:map[uint256.Int]map[uint8]map[common.Hash]*vm.StorageKey, map:map[uint8]map[common.Hash]*vm.StorageKey, map:map[common.Hash]*vm.StorageKey, map:map[string]*vm.StorageKey, map:map[uint256.Int]map[uint8]*vm.StorageKey, map:map[uint8]*vm.StorageKey, map:map[common.Address]*vm.StorageKey
 //@   witness s0: top(scope, 0)
 //@   witness s1: top(scope, 1)
 //@   witness s2: top(scope, 2)
@@ -178,28 +261,50 @@ package vm
 //@   witness readonly: interpreter.readOnly
 //@ end
 
-//@ func vm.loadDataFromMem
+// reads a length-prefixed byte string (32-byte length word, then the data) at a memory pointer taken from the
+// stack: either it lies inside the current memory and a fresh copy is returned, or an error is returned
+//@ func vm.loadDataFromMem(memPtr, mem) (out, n, err)
 //@   verify
 //@   safety [C03]
 //@   requires args: memPtr != nil && mem != nil
+//@   ensures inside-memory [C09 C12]: err == nil ==> math(*memPtr) + 32 + math(n) <= math(len(mem.store)) && math(n) == math(word(mem.store, uint64(*memPtr))) && uint64(len(out)) == n && (n == 0 || fresh(out))
+//@   ensures failure-is-exceptional [C12]: err != nil ==> err != errStopToken && err != ErrExecutionReverted
 //@   ensures work-bounded [C20]: work <= old(work) + 256
 //@   witness ptr: *memPtr
 //@   witness-bytes mem 512: mem.store
 //@ end
 
-//@ func vm.loadParamBytes
+// ABI head/tail decoding of parameter `index` of a (bytes, bytes) payload, for every payload byte string and every
+// 256-bit head and length word: head word at 32*index = offset of the tail; tail = 32-byte length followed by the data.
+//@ func vm.loadParamBytes(input, index) (out, err)
 //@   verify
 //@   safety [C03 C14]
 //@   requires idx: index == 0 || index == 1
+//@   let head = math(index) * 32
+//@   let offw = word(input, uint64(index) * 32)
+//@   let okhead = math(len(input)) >= head + 32
+//@   let okoff = okhead && math(offw) + 32 <= math(len(input))
+//@   let dlen = word(input, uint64(offw))
+//@   let ok = okoff && math(offw) + 32 + math(dlen) <= math(len(input))
+//@   ensures decodes-exactly [C14]: ok ==> err == nil && obj(out) == obj(input) && math(off(out)) == math(off(input)) + math(offw) + 32 && math(len(out)) == math(dlen)
+//@   ensures malformed-rejected [C14]: !ok ==> err != nil
 //@   ensures work-bounded [C20]: work <= old(work)
+//@   modifies nothing
 //@   witness-bytes input 256: input
 //@   witness index: index
-//@   modifies nothing
 //@ end
 
-//@ func (*vm.aspcontext).Run
+// 0x64: the host is asked for exactly (address = first 20 bytes, key = the rest) and its answer is returned verbatim.
+//@ func (*vm.aspcontext).Run(c, ctx, input) (ret, err)
 //@   verify
 //@   safety [C03 C14]
+//@   ghost gets u64 = 0
+//@   ghost hostret slice = nil
+//@   ghost hosterr error = nil
+//@   oncall types.GetAspectContext : gets = gets + 1 ; hostret = $r0 ; hosterr = $r1
+//@   assertcall types.GetAspectContext asks-for-the-encoded-address [C14]: gets == 0 && len(input) >= 20 && $2 == addrof(input)
+//@   ensures short-payload-no-host-call [C14]: len(input) < 20 ==> gets == 0
+//@   ensures host-answer-returned [C14]: gets <= 1 && (gets == 1 ==> err == hosterr && (hosterr == nil ==> sameslice(ret, hostret)))
 //@   ensures work-bounded [C20]: work <= old(work) + 256
 //@   witness-bytes input 512: input
 //@ end
@@ -211,10 +316,22 @@ package vm
 //@   witness-bytes input 512: input
 //@ end
 
-//@ func (*vm.contextWriter).Run
+// 0x66: one host write of exactly the decoded (key, value) under the address captured in the execution context
+// (the caller of the CALL that reached the precompile), or a refusal; never a write under another address.
+//@ func (*vm.contextWriter).Run(c, ctx, input) (ret, err)
 //@   verify
 //@   safety [C03 C14]
 //@   requires recv: c != nil
+//@   ghost sets u64 = 0
+//@   ghost hosterr error = nil
+//@   let off0 = word(input, 0)
+//@   let off1 = word(input, 32)
+//@   oncall types.SetAspectContext : sets = sets + 1 ; hosterr = $r
+//@   assertcall types.SetAspectContext written-under-the-caller [C14]: sets == 0 && c.ctx != nil && $2 == c.ctx.from
+//@   assertcall types.SetAspectContext value-is-the-encoded-value [C14]: obj($4) == obj(input) && math(off($4)) == math(off(input)) + math(off1) + 32 && math(len($4)) == math(word(input, uint64(off1)))
+//@   ensures no-context-refused [C14]: c.ctx == nil ==> err != nil && sets == 0
+//@   ensures at-most-one-write [C14]: sets <= 1 && ret == nil
+//@   ensures host-error-returned [C14]: sets == 1 ==> err == hosterr
 //@   ensures work-bounded [C20]: work <= old(work) + 256
 //@   witness-bytes input 512: input
 //@   witness ctxnil: c.ctx == nil
